@@ -335,9 +335,53 @@ func (x *xtr) simpleStmt(s ast.Stmt) string {
 
 // ---- if
 
+// if err := bucket.Put(k, v); err != nil { … return … }
+func (x *xtr) bucketPutIf(t *ast.IfStmt, rest func() string) (string, bool) {
+	a, ok := t.Init.(*ast.AssignStmt)
+	if !ok || a.Tok != token.DEFINE || len(a.Lhs) != 1 || len(a.Rhs) != 1 || t.Else != nil {
+		return "", false
+	}
+	errId, ok := a.Lhs[0].(*ast.Ident)
+	c, ok2 := a.Rhs[0].(*ast.CallExpr)
+	if !ok || !ok2 {
+		return "", false
+	}
+	se, ok := c.Fun.(*ast.SelectorExpr)
+	if !ok || se.Sel.Name != "Put" || len(c.Args) != 2 {
+		return "", false
+	}
+	b, ok := se.X.(*ast.Ident)
+	if !ok || x.env[b.Name] == nil || x.env[b.Name].k != kBucket {
+		return "", false
+	}
+	be, ok := t.Cond.(*ast.BinaryExpr)
+	if !ok || be.Op != token.NEQ || !isIdent(be.X, errId.Name) || !isIdent(be.Y, "nil") || len(t.Body.List) == 0 {
+		return "", false
+	}
+	if _, isRet := t.Body.List[len(t.Body.List)-1].(*ast.ReturnStmt); !isRet {
+		return "", false
+	}
+	bt := listOf(tBytex)
+	call := fmt.Sprintf("KV.putBolt %s %s %s", ident(b.Name), paren(x.co(c.Args[0], x.expr(c.Args[0]), bt)), paren(x.co(c.Args[1], x.expr(c.Args[1]), bt)))
+	saved := x.env
+	x.env = copyEnv(saved)
+	x.declare(errId, errId.Name, tErr)
+	errArm := x.block(t.Body.List, func() string {
+		x.bad(t, "control reaches the end of the error branch")
+		return ""
+	})
+	x.env = copyEnv(saved)
+	okArm := rest()
+	x.env = saved
+	return fmt.Sprintf("match %s with\n| .error %s =>\n%s\n| .ok %s =>\n%s", call, ident(errId.Name), indent(armBody(errArm), 1), ident(b.Name), indent(okArm, 1)), true
+}
+
 func (x *xtr) ifStmt(t *ast.IfStmt, rest func() string) string {
 	if t.Init != nil {
-		x.bad(t, "if with an init statement")
+		if s, ok := x.bucketPutIf(t, rest); ok {
+			return s
+		}
+		x.bad(t, "if with an init statement (only `if err := bucket.Put(k, v); err != nil { … return … }`)")
 	}
 	cond := x.boolExpr(t.Cond)
 	var elseList []ast.Stmt
